@@ -339,6 +339,14 @@ def rec_fn(*args):
     return ['REC'] + list(args)
 
 
+RECD_DEFAULTS = [11.5, 'dflt', True, 0, -1, 'x', 2, 3]
+
+
+def recd_fn(a=11.5, b='dflt', c=True, d=0, e=-1, f='x', g=2, h=3):
+    """a host function with default parameter values: a blank slot must still arrive as blank, not as the default"""
+    return ['REC', a, b, c, d, e, f, g, h]
+
+
 def corpus(tier):
     out = [list(x) for x in HAND]
     maxn = 2
@@ -477,6 +485,15 @@ class Blanks(Sub):
             env.note('rejected')
         else:
             res.append(fail('%r -> %r' % (text, out)))
+        # the same call on a host function whose parameters have defaults: an omitted slot is a blank argument, only
+        # the slots that are not there at all take the defaults
+        if out[0] == 'v' and not res and not (k == 1 and not pat[0]):
+            dtext = 'RECD(' + sep.join(slots) + ')'
+            dout = env.evo(dtext, funcs={'RECD': recd_fn})
+            dwant = ['REC'] + want + RECD_DEFAULTS[k:]
+            if dout != ['v', dwant]:
+                res.append(fail('%r passes %r to a host function with default parameter values %r; one argument per slot '
+                                '(blank for an omitted one) would be %r' % (dtext, dout, RECD_DEFAULTS, dwant), dwant, dout))
         # same pattern as an array literal
         if k >= 1:
             atext = '{' + sep.join(slots) + '}'
@@ -563,8 +580,10 @@ class CellCase(Sub):
         for v in case_variants('b2:c3'):
             yield ['range', 'b2:c3', v]
 
-    def observe(self, env, text):
+    def observe(self, env, text, shadow=()):
         p = env.new_parser()
+        for name in shadow:     # variables whose names are shaped like the cell: the reference stays a cell reference
+            p.set_variable(name, 'variable %s' % name)
         ev = []
 
         def oncell(cell, setter):
@@ -596,6 +615,14 @@ class CellCase(Sub):
             return fail('canonical reference %r not evaluated: %r' % (canon.upper(), base))
         if got != base:
             return fail('%r gives events/outcome %r but %r gives %r' % (variant, got, canon.upper(), base), base, got)
+        names = sorted(set(n for t in (variant, canon) for part in t.replace('$', '').split(':')
+                           for n in (part, part.upper(), part.lower())))
+        for text in (variant, canon.upper()):
+            sh = self.observe(env, formula % text, shadow=names)
+            if sh != base:
+                return fail('%r on a parser that also has variables named %r gives events/outcome %r; without them %r '
+                            '(a reference shaped like a cell is a cell reference in either case)' % (
+                                formula % text, names, sh, base), base, sh)
         return None
 
 
